@@ -2,7 +2,7 @@
    every run, language Base/GoLoop.v): for EVERY target list and every new target, the target is refused exactly when one of
    that NAME is already there - whatever its URL - and otherwise appended at the end, nothing else changing: the model's [add]
    (Mw/Proxy.v), on which membership, uniqueness of names and the rotation theorems rest.  (C19) *)
-From Coq Require Import List ZArith Bool String Ascii.
+From Coq Require Import List ZArith Bool String Ascii Lia.
 From Echo Require Import Base.Sx Base.GoLoop Gen.Src_addtarget.
 Import ListNotations.
 Open Scope Z_scope.
@@ -13,6 +13,10 @@ Definition tpred (f : string) (args : list val) : val :=
   if String.eqb f ".Name" then match args with [VL [n; _]] => n | _ => VZ 0 end
   else if String.eqb f ".URL" then match args with [VL [_; u]] => u | _ => VZ 0 end
   else if String.eqb f "append" then match args with [VL l; v] => VL (l ++ [v]) | _ => VZ 0 end
+  else if String.eqb f "append..." then match args with [VL a; VL b] => VL (a ++ b) | _ => VZ 0 end
+  else if String.eqb f "index" then match args with [VL l; VZ i] => nth (Z.to_nat i) l (VZ 0) | _ => VZ 0 end
+  else if String.eqb f "slice_to" then match args with [VL l; VZ i] => VL (firstn (Z.to_nat i) l) | _ => VZ 0 end
+  else if String.eqb f "slice_from" then match args with [VL l; VZ i] => VL (skipn (Z.to_nat i) l) | _ => VZ 0 end
   else if String.eqb f "len" then match args with [VL l] => VZ (Z.of_nat (List.length l)) | _ => VZ 0 end
   else VZ 0.
 Definition tsym (s : string) : val := VZ 0.
@@ -77,3 +81,99 @@ Example add_target_src_example :
          {| locals := [("target"%string, tv (lit "b", 9)); ("t"%string, VZ 0)]; fields := [("b.targets"%string, VL (map tv l))];
             lists := [("b.targets"%string, map tv l)]; events := []; inputs := [] |}) = [VZ 0].    (* the name of b: refused *)
 Proof. split; vm_compute; reflexivity. Qed.
+
+(* ---- RemoveTarget: the FIRST target of that name is cut out, the others keep their order; false when there is none *)
+Lemma skipn_nth {A} (d : A) (l : list A) k : (k < List.length l)%nat -> skipn k l = nth k l d :: skipn (S k) l.
+Proof. revert k. induction l as [|x r IH]; intros k H; [cbn in H; lia|]. destruct k; [reflexivity|]. cbn. apply IH. cbn in H. lia. Qed.
+Lemma firstn_S_nth {A} (d : A) (l : list A) k : (k < List.length l)%nat -> firstn (S k) l = (firstn k l ++ [nth k l d])%list.
+Proof. revert k. induction l as [|x r IH]; intros k H; [cbn in H; lia|]. destruct k; [reflexivity|]. cbn. f_equal. apply IH. cbn in H. lia. Qed.
+
+Lemma map_skipn' {A B} (f : A -> B) k (l : list A) : skipn k (map f l) = map f (skipn k l).
+Proof. revert k. induction l as [|x r IH]; intros k; destruct k; try reflexivity. cbn. apply IH. Qed.
+Lemma map_firstn' {A B} (f : A -> B) k (l : list A) : firstn k (map f l) = map f (firstn k l).
+Proof. revert k. induction l as [|x r IH]; intros k; destruct k; try reflexivity. cbn. f_equal. apply IH. Qed.
+
+Section Remove.
+Variables (l : list (str * Z)) (n : str).
+Definition named (x : str * Z) : bool := str_eqb (fst x) n.
+Fixpoint rm (xs : list (str * Z)) : option (list (str * Z)) :=
+  match xs with
+  | [] => None
+  | x :: r => if named x then Some r else match rm r with Some r' => Some (x :: r') | None => None end
+  end.
+Definition rm_from (k : nat) : option (list (str * Z)) :=
+  match rm (skipn k l) with Some r => Some (firstn k l ++ r)%list | None => None end.
+Definition d0 : str * Z := ([], 0).
+Lemma rm_from_0 : rm_from 0 = rm l.
+Proof. unfold rm_from. cbn. destruct (rm l); reflexivity. Qed.
+Lemma rm_from_hit k : (k < List.length l)%nat -> named (nth k l d0) = true -> rm_from k = Some (firstn k l ++ skipn (S k) l)%list.
+Proof. intros H E. unfold rm_from. rewrite (skipn_nth d0 l k H). cbn [rm]. rewrite E. reflexivity. Qed.
+Lemma rm_from_other k : (k < List.length l)%nat -> named (nth k l d0) = false -> rm_from k = rm_from (S k).
+Proof. intros H E. unfold rm_from. rewrite (skipn_nth d0 l k H). cbn [rm]. rewrite E.
+  rewrite (firstn_S_nth d0 l k H). destruct (rm (skipn (S k) l)); [|reflexivity]. rewrite <- app_assoc. reflexivity. Qed.
+Lemma rm_from_end k : (List.length l <= k)%nat -> rm_from k = None.
+Proof. intro H. unfold rm_from. rewrite skipn_all2 by exact H. reflexivity. Qed.
+
+Local Notation mkr vi vt vf :=
+  {| locals := [("name"%string, VS n); ("i"%string, vi); ("t"%string, vt)]; fields := [("b.targets"%string, vf)];
+     lists := []; events := []; inputs := [] |}.
+
+Ltac rt_eval :=
+  repeat (rewrite ?truthy_b2v;
+          cbn [exec exec_s eval get put getl assign set_local locals fields lists events inputs String.eqb Ascii.eqb Bool.eqb
+               map tl app negb andb orb fst snd as_z as_l val_eqb tsym tpred tv];
+          try unfold set_local).
+
+Lemma index_loop (F : state -> state * ctl) :
+  (forall k vt, (k < List.length l)%nat ->
+     F (mkr (VZ (Z.of_nat k)) vt (VL (map tv l))) =
+     if named (nth k l d0)
+     then (mkr (VZ (Z.of_nat k)) (tv (nth k l d0)) (VL (map tv (firstn k l ++ skipn (S k) l))), Ret [VZ 1])
+     else (mkr (VZ (Z.of_nat k)) (tv (nth k l d0)) (VL (map tv l)), Next)) ->
+  forall m k vi vt, (k + m = List.length l)%nat -> exists vi' vt',
+  range_loop F "i" (map (fun j => VZ (Z.of_nat j)) (seq k m)) (mkr vi vt (VL (map tv l))) =
+    match rm_from k with
+    | Some r => (mkr vi' vt' (VL (map tv r)), Ret [VZ 1])
+    | None => (mkr vi' vt' (VL (map tv l)), Next)
+    end.
+Proof.
+  intros HF m. induction m as [|m IH]; intros k vi vt Hk.
+  - exists vi, vt. cbn. rewrite rm_from_end by lia. reflexivity.
+  - cbn [seq map range_loop].
+    change (set_local (mkr vi vt (VL (map tv l))) "i" (VZ (Z.of_nat k))) with (mkr (VZ (Z.of_nat k)) vt (VL (map tv l))).
+    rewrite HF by lia. destruct (named (nth k l d0)) eqn:En.
+    + rewrite (rm_from_hit k) by (lia || exact En). do 2 eexists. reflexivity.
+    + rewrite (rm_from_other k) by (lia || exact En). apply IH. lia.
+Qed.
+
+Theorem src_remove_target_spec :
+  let '(st', ret) := run tsym tpred src_remove_target_results src_remove_target (mkr (VZ 0) (VZ 0) (VL (map tv l))) in
+  match rm l with
+  | Some r => ret = [VZ 1] /\ get (fields st') "b.targets" = VL (map tv r)
+  | None => ret = [VZ 0] /\ get (fields st') "b.targets" = VL (map tv l)
+  end.
+Proof.
+  unfold run, src_remove_target, src_remove_target_results. cbn [exec]. rt_eval. rewrite map_length, Nat2Z.id.
+  match goal with |- context [range_loop ?F "i" _ ?s] =>
+    destruct (index_loop F) with (m := List.length l) (k := 0%nat) (vi := VZ 0) (vt := VZ 0) as (vi' & vt' & Hr)
+  end.
+  - intros k vt Hk. rt_eval. rewrite Nat2Z.id.
+    rewrite (nth_indep _ (VZ 0) (tv d0)) by (rewrite map_length; exact Hk). rewrite (map_nth tv).
+    unfold named. destruct (nth k l d0) as [xn xu] eqn:Ex. rt_eval. destruct (str_eqb xn n); rt_eval; [|reflexivity].
+    replace (Z.to_nat (Z.of_nat k + 1)) with (S k) by lia. rewrite map_skipn', map_firstn', <- map_app, ?Nat2Z.id. reflexivity.
+  - reflexivity.
+  - match type of Hr with ?L = _ => match goal with |- context [range_loop ?F "i" ?xs ?s] => change (range_loop F "i" xs s) with L end end.
+    rewrite Hr, rm_from_0. destruct (rm l); rt_eval; split; reflexivity.
+Qed.
+End Remove.
+
+Theorem C19_source_remove_target : forall (l : list (str * Z)) (n : str),
+  let st := {| locals := [("name"%string, VS n); ("i"%string, VZ 0); ("t"%string, VZ 0)]; fields := [("b.targets"%string, VL (map tv l))];
+               lists := []; events := []; inputs := [] |} in
+  let '(st', ret) := run tsym tpred src_remove_target_results src_remove_target st in
+  match rm n l with
+  | Some r => ret = [VZ 1] /\ get (fields st') "b.targets" = VL (map tv r)
+  | None => ret = [VZ 0] /\ get (fields st') "b.targets" = VL (map tv l)
+  end.
+Proof. exact src_remove_target_spec. Qed.
+Print Assumptions C19_source_remove_target.
